@@ -313,6 +313,9 @@ def run(prog: Program, res: Result, tier: str) -> None:
 F = "sigpyproc/io/fileio.py"
 R = "sigpyproc/readers.py"
 MUTANTS = [
+    {"id": "c02-cread-cap-hoisted", "file": F, "expect": "C02.R6",
+     "old": "        data = []\n        while count >= 0:\n            count_read = min(self.sinfo.entries[self.ifile_cur].datalen, count)\n",
+     "new": "        data = []\n        datalen = self.sinfo.entries[self.ifile_cur].datalen\n        while count >= 0:\n            count_read = min(datalen, count)\n"},
     {"id": "c02-revert-F51", "file": F, "expect": "C02.R1",
      "old": "        # The stream begins at the first sample, not at the header of file 0\n        self._seek2hdr(0)\n", "new": ""},
     {"id": "c02-search-loop-le", "file": F, "expect": "C02.R4", "old": '        fileid = np.where(offset < self.sinfo.cumsum_datalens)[0][0]\n        self._seek2hdr(fileid)\n\n        if fileid == 0:\n            self.file_obj.seek(offset, os.SEEK_CUR)\n        else:\n            file_offset = offset - self.sinfo.cumsum_datalens[fileid - 1]\n            self.file_obj.seek(file_offset, os.SEEK_CUR)\n', "new": '        import itertools\n        data_ends = self.sinfo.cumsum_datalens\n        data_starts = itertools.chain([0], data_ends[:-1])\n        for fileid, (data_start, data_end) in enumerate(zip(data_starts, data_ends, strict=True)):\n            if offset <= data_end:\n                break\n        self._seek2hdr(fileid)\n        self.file_obj.seek(offset - data_start, os.SEEK_CUR)\n'},
@@ -355,6 +358,9 @@ MUTANTS += [
      "old": "        self.entries.append(finfo)", "new": "        self.entries.insert(0, finfo)"},
 ]
 TWINS = [
+    {"id": "c02-twin-cread-cap-temp-in-loop", "file": F,
+     "old": "            count_read = min(self.sinfo.entries[self.ifile_cur].datalen, count)\n",
+     "new": "            datalen = self.sinfo.entries[self.ifile_cur].datalen\n            count_read = min(datalen, count)\n"},
     {"id": "c02-twin-search-loop", "file": F, "old": '        fileid = np.where(offset < self.sinfo.cumsum_datalens)[0][0]\n        self._seek2hdr(fileid)\n\n        if fileid == 0:\n            self.file_obj.seek(offset, os.SEEK_CUR)\n        else:\n            file_offset = offset - self.sinfo.cumsum_datalens[fileid - 1]\n            self.file_obj.seek(file_offset, os.SEEK_CUR)\n', "new": '        import itertools\n        data_ends = self.sinfo.cumsum_datalens\n        data_starts = itertools.chain([0], data_ends[:-1])\n        for fileid, (data_start, data_end) in enumerate(zip(data_starts, data_ends, strict=True)):\n            if offset < data_end:\n                break\n        self._seek2hdr(fileid)\n        self.file_obj.seek(offset - data_start, os.SEEK_CUR)\n'},
     {"id": "c02-twin-cread-rename", "file": F,
      "old": "            count_read = min(self.sinfo.entries[self.ifile_cur].datalen, count)\n            data_read = np.fromfile(\n                self.file_obj,\n                count=count_read,\n                dtype=self.bitsinfo.dtype,\n            )\n            count -= len(data_read)\n            data.append(data_read)",
